@@ -1300,6 +1300,11 @@ func (r *pilosaRoaringIterator) Next() (key uint64, cType byte, n int, length in
 	case containerRun:
 		r.currentLen = int(runCount)
 		size = r.currentLen * 4
+	default:
+		// The type comes from the payload's header.
+		r.Done(fmt.Errorf("container %d/%d, key %d, has unknown container type %d",
+			r.currentIdx, r.keys, r.currentKey, r.currentType))
+		return r.Current()
 	}
 	if int64(r.currentDataOffset)+int64(size) > int64(len(r.data)) {
 		r.Done(fmt.Errorf("container %d/%d, key %d, had offset %d+%d size, maximum %d",
